@@ -24,11 +24,11 @@ Bind(e) ==
   /\ st' = [s \in Streams |-> Rec(e.st.st[s])]
   /\ cursors' = [s \in Streams |-> e.st.cursors[s]]
   /\ members' = ToSet(e.st.members)
-  /\ sessions' = ToSet(e.st.sessions) /\ enforcer' = e.st.enforcer
+  /\ sessions' = ToSet(e.st.sessions) /\ enforcer' = e.st.enforcer /\ clientAuth' = e.st.clientAuth
   /\ obs' = [a |-> e.obs.a, res |-> e.obs.res]
 
 CallOf(e) == [m |-> e.args.call.m, c |-> e.args.call.c, s |-> e.args.call.s, resume |-> e.args.call.resume,
-              grp |-> e.args.call.grp, epoch |-> e.args.call.epoch, ro |-> e.args.call.ro]
+              grp |-> e.args.call.grp, epoch |-> e.args.call.epoch, ro |-> e.args.call.ro, cred |-> e.args.call.cred]
 
 TraceInit ==
   LET e == Trace[1] IN
@@ -36,7 +36,7 @@ TraceInit ==
   /\ st = [s \in Streams |-> Rec(e.st.st[s])]
   /\ cursors = [s \in Streams |-> e.st.cursors[s]]
   /\ members = ToSet(e.st.members)
-  /\ sessions = ToSet(e.st.sessions) /\ enforcer = e.st.enforcer
+  /\ sessions = ToSet(e.st.sessions) /\ enforcer = e.st.enforcer /\ clientAuth = e.st.clientAuth
   /\ obs = [a |-> "Open", res |-> "Ok"]
   /\ l = 2
 
